@@ -88,11 +88,33 @@ Proof. induction l as [|[k v] t IH]; intros acc; cbn; [discriminate|]. destruct 
 Lemma nd_parse_literal s : nd (Generators.parse_literal s).
 Proof. unfold Generators.parse_literal. nd_case. Qed.
 
+Lemma nd_env_lines ls : forall first, nd (Generators.env_lines first ls).
+Proof.
+  induction ls as [|l t IH]; intros first; cbn [Generators.env_lines]; [discriminate|].
+  apply nd_bind; [unfold Generators.env_line; nd_case|]. intros p _.
+  apply nd_bind; [apply IH|]. intros; discriminate.
+Qed.
+
+Lemma nd_concat_res {A} (l : list (res (list A))) : Forall nd l -> nd (Generators.concat_res l).
+Proof.
+  induction 1 as [|r t Hr _ IH]; cbn [Generators.concat_res]; [discriminate|].
+  apply nd_bind; [exact Hr|]. intros x _. apply nd_bind; [exact IH|]. intros; discriminate.
+Qed.
+
+Lemma nd_gen_pairs g : nd (gen_pairs g).
+Proof.
+  unfold gen_pairs. apply nd_bind.
+  - apply nd_concat_res. apply Forall_forall. intros r Hr. apply in_map_iff in Hr as (c & <- & _). apply nd_env_lines.
+  - intros e _. apply nd_bind; [apply nd_mapM; intros; apply nd_parse_literal|]. intros l _.
+    apply nd_bind; [|intros; discriminate]. apply nd_mapM. intros sc.
+    apply nd_bind; [unfold Generators.parse_file_source; nd_case|]. intros; discriminate.
+Qed.
+
 Lemma nd_gen_node secret g : nd (gen_node secret g).
 Proof.
   unfold gen_node. destruct (String.eqb (pg_name g) ""); [discriminate|].
-  apply nd_bind; [apply nd_mapM; intros; apply nd_parse_literal|]. intros kvs _.
-  apply nd_bind; [apply nd_validated_map|]. intros m _. nd_case.
+  apply nd_bind; [apply nd_gen_pairs|]. intros kvs _.
+  apply nd_bind; [apply nd_validated_map|]. intros m _. discriminate.
 Qed.
 
 Lemma nd_gen_resource secret g : nd (gen_resource secret g).
